@@ -96,7 +96,7 @@ theorem implicit_args_shared_partial {g : GraphVal} {importNodes : List Nat} {ag
   | panic s => simp [hr] at he
   | ok r =>
     simp only [hr] at he hagg
-    cases hxp : resolveExplicit g importNodes r.agg [] with
+    cases hxp : resolveExplicit g r.first importNodes r.agg [] with
     | error e => simp [hxp] at he
     | panic s => simp [hxp] at he
     | ok ae =>
